@@ -84,9 +84,9 @@ func segment(s string) []string {
 	}
 	var out []string
 	start := 0
-	riRun := 0          // regional indicators in the current run before position i
-	pictZWJ := false    // left context matches ExtPict Extend* ZWJ
-	pictOpen := false   // left context matches ExtPict Extend*
+	riRun := 0        // regional indicators in the current run before position i
+	pictZWJ := false  // left context matches ExtPict Extend* ZWJ
+	pictOpen := false // left context matches ExtPict Extend*
 	for i := 0; i < len(rs); i++ {
 		cur := classOf(rs[i])
 		if i > 0 {
@@ -195,23 +195,32 @@ func multiRune(c string) bool {
 	return n > 1
 }
 
-// zwjPictAfterHangulOrRI reports whether s contains <Hangul L/V/T/LV/LVT or
-// Regional_Indicator> Extend* ZWJ <Extended_Pictographic>. UAX #29 (GB11)
-// breaks before the pictographic there because the ZWJ is not preceded by a
-// pictographic; the segmentation library the implementation uses does not
-// (known finding C14-textseg-zwj-pictographic). Used only to tag failures.
+// zwjPictAfterHangulOrRI reports whether s contains the one place where the
+// segmentation library the implementation uses (go-textseg v15) is known to
+// deviate from UAX #29: inside a cluster whose base is a Hangul, a
+// Regional_Indicator or an Extended_Pictographic sequence it always attaches
+// ZWJ + Extended_Pictographic, whereas rule GB11 attaches the pictographic
+// only when the ZWJ is directly preceded by "Extended_Pictographic Extend*"
+// (known finding C14-textseg-zwj-pictographic). Detected on the own
+// segmentation: a cluster that ends in ZWJ, has such a base, and is followed
+// by a cluster that starts with a pictographic. Used only to tag failures.
 func zwjPictAfterHangulOrRI(s string) bool {
-	rs := []rune(s)
-	for i := 1; i+1 < len(rs); i++ {
-		if classOf(rs[i]) != gcZWJ || classOf(rs[i+1]) != gcExtPict {
+	cl := segment(s)
+	for k := 0; k+1 < len(cl); k++ {
+		rs := []rune(cl[k])
+		if classOf(rs[len(rs)-1]) != gcZWJ {
 			continue
 		}
-		j := i - 1
-		for j > 0 && classOf(rs[j]) == gcExtend {
-			j--
+		next := []rune(cl[k+1])
+		if classOf(next[0]) != gcExtPict {
+			continue
+		}
+		j := 0
+		for j < len(rs)-1 && classOf(rs[j]) == gcPrepend {
+			j++
 		}
 		switch classOf(rs[j]) {
-		case gcL, gcV, gcT, gcLV, gcLVT, gcRI:
+		case gcL, gcV, gcT, gcLV, gcLVT, gcRI, gcExtPict:
 			return true
 		}
 	}
